@@ -687,7 +687,7 @@ func recordState(spec *common.Spec, p Preset, st common.BeaconState, running *co
 	if blocks > degenerateBlocks {
 		// (nearly) every active validator has a (nearly) zero balance: the specification's sampling loops run for
 		// thousands of candidates, which TLC evaluates as equally deep recursion.  Such inputs are not recorded.
-		return event{Ev: "Skipped", Chain: chain, Kind: kind, Slot: ev.Slot, Fork: ev.Fork, P: p}, nil
+		return event{Ev: "Skipped", Chain: chain, Kind: kind, Slot: ev.Slot, Fork: ev.Fork, P: p, Vals: ev.Vals}, nil
 	}
 	var fresh *common.EpochsContext
 	ferr := guarded(func() error {
@@ -835,6 +835,13 @@ func runChain(it planItem, emit func(event) error) error {
 			}
 			reg[i].Slashed = false
 		}
+		// the chain needs validators that are active from genesis on
+		for k, i := range rng.Perm(it.NVals) {
+			if k >= 2 {
+				break
+			}
+			reg[i] = valSpec{Act: 0, Exit: never, Eff: it.P.MAX_EFFECTIVE_BALANCE}
+		}
 	}
 	if err := applyRegistry(spec, g, reg); err != nil {
 		return err
@@ -868,7 +875,9 @@ func runChain(it planItem, emit func(event) error) error {
 	dead := false
 	rec := func(slot uint64) error {
 		ev, err := recordState(spec, it.P, st, epc, it.Chain, "chain", boundaryAt(slot), first)
-		first = false
+		// a state that is not recorded (degenerate balances) breaks the history of the stored sync committees:
+		// the next recorded state starts a new history (new_chain) for the trace specification
+		first = ev.Ev == "Skipped"
 		if err != nil {
 			return err
 		}
@@ -877,8 +886,8 @@ func runChain(it planItem, emit func(event) error) error {
 		// i % 0); such states are not recorded and the chain ends here
 		cur := slot / spe
 		// (cur+2 as well: the coming epoch transition / upgrade computes the shuffling and sync committee of cur+2)
-		if ev.Ev == "State" && (len(activeAt(ev.Vals, cur)) == 0 || len(activeAt(ev.Vals, cur+1)) == 0 ||
-			len(activeAt(ev.Vals, cur+2)) == 0) {
+		if len(activeAt(ev.Vals, cur)) == 0 || len(activeAt(ev.Vals, cur+1)) == 0 ||
+			len(activeAt(ev.Vals, cur+2)) == 0 {
 			dead = true
 			return nil
 		}
@@ -896,7 +905,18 @@ func runChain(it planItem, emit func(event) error) error {
 				// specification as well (compute_proposer_index asserts len(indices) > 0); stop recording it
 				return nil
 			}
-			return fmt.Errorf("ProcessSlots(%d): %v", slot, err)
+			// diagnosis only: the sync-committee update hides its cause, repeat its two steps to learn it
+			diag := ""
+			if epc.NextEpoch != nil {
+				idx, e1 := common.ComputeSyncCommitteeIndices(spec, unwrap(st), epc.NextEpoch.Epoch, epc.NextEpoch.ActiveIndices)
+				diag = fmt.Sprintf(" [ComputeSyncCommitteeIndices(epoch %d, %d active): %v", epc.NextEpoch.Epoch, len(epc.NextEpoch.ActiveIndices), e1)
+				if e1 == nil {
+					_, e2 := common.IndicesToSyncCommittee(idx, epc.ValidatorPubkeyCache)
+					diag += fmt.Sprintf("; IndicesToSyncCommittee(%v): %v", idx, e2)
+				}
+				diag += "]"
+			}
+			return fmt.Errorf("ProcessSlots(%d): %v%s", slot, err, diag)
 		}
 		if slot%spe == 0 || slot%spe == midPick {
 			if err := rec(slot); err != nil {
